@@ -1957,6 +1957,17 @@ func (k *Kernel) handleReplayedHeader(
 		}
 	}
 
+	// The replayed header must build on the header we are committing.
+	if h > k.initialHeight && s.Committing.Height == h-1 &&
+		!bytes.Equal(header.PrevBlockHash, s.CommittingHeader.Hash) {
+		return tmelink.ReplayedHeaderValidationError{
+			Err: fmt.Errorf(
+				"replayed header's previous block hash (%x) differs from the committing header's hash (%x)",
+				header.PrevBlockHash, s.CommittingHeader.Hash,
+			),
+		}
+	}
+
 	// We might have a valid header.
 	// Confirm the hash first,
 	// under the assumption that it is cheaper to validate the hash than the signatures.
